@@ -1,7 +1,8 @@
 (* C09 — truncation discards at most the threshold weight; rank rules of the split. *)
+From Coq Require Import String.
 From Coq Require Import List Arith QArith.
 Import ListNotations.
-From Yaqs Require Import Base.Num Model.RankSelect Proofs.RankSelectP.
+From Yaqs Require Import Base.Num Model.RankSelect Proofs.RankSelectP Gen.RankGen Proofs.RankGenP.
 
 (* discarded-weight mode, exact arithmetic: what is cut weighs at most the threshold, unless the cap forced it *)
 Theorem C09_dw_rule : forall s thr minb maxb dyn, (0 <= thr)%Q -> let keep := keep_dw QN s thr minb maxb dyn in
@@ -55,6 +56,29 @@ Print Assumptions C09_two_site_svd_min.
 Theorem C09_two_site_svd_le_rank : forall (N : Num) s thr minb mb, (keep_tss N s thr minb mb <= length s)%nat.
 Proof. exact keep_tss_le_len. Qed.
 Print Assumptions C09_two_site_svd_le_rank.
+
+(* ---- tie to the source by translation (Gen/RankGen.v regenerated from /repo on every run): the rule theorems above are about
+   the model; these equalities carry them to what the source says now, and the rank bound is restated on the generated code ---- *)
+Theorem C09_source_split_is_model_dw : forall (N : Num) s dyn thr minb maxb,
+  split_keep N s dyn "discarded_weight"%string thr minb maxb = keep_dw N s thr minb maxb dyn.
+Proof. exact split_keep_dw. Qed.
+Print Assumptions C09_source_split_is_model_dw.
+Theorem C09_source_split_is_model_relative : forall (N : Num) s dyn thr minb maxb,
+  split_keep N s dyn "relative"%string thr minb maxb = keep_rel N s thr minb maxb.
+Proof. exact split_keep_rel. Qed.
+Print Assumptions C09_source_split_is_model_relative.
+Theorem C09_source_two_site_svd_is_model : forall (N : Num) s thr mb minb, tss_keep N s thr mb minb = keep_tss N s thr minb mb.
+Proof. exact tss_keep_eq. Qed.
+Print Assumptions C09_source_two_site_svd_is_model.
+Theorem C09_source_keep_le_rank : forall (N : Num) s dyn thr minb maxb mode, mode = "discarded_weight"%string \/ mode = "relative"%string ->
+  (split_keep N s dyn mode thr minb maxb <= List.length s)%nat.
+Proof. exact source_split_le_rank. Qed.
+Print Assumptions C09_source_keep_le_rank.
+Theorem C09_source_dw_rule : forall s thr minb maxb dyn, (0 <= thr)%Q -> let keep := split_keep QN s dyn "discarded_weight"%string thr minb maxb in
+  (tail_weight QN s keep <= thr)%Q \/
+  ((maxb < keep_dw_uncapped QN s thr minb)%nat /\ keep = Nat.max maxb (Nat.min (List.length s) minb)).
+Proof. intros s thr minb maxb dyn H. cbv zeta. rewrite split_keep_dw. exact (dw_rule s thr minb maxb dyn H). Qed.
+Print Assumptions C09_source_dw_rule.
 
 Example C09_example : keep_dw QN [1; 1#2; 1#10; 1#100]%Q (2#100)%Q 1 8 false = 2%nat
   /\ (tail_weight QN [1; 1#2; 1#10; 1#100]%Q 2 <= 2#100)%Q /\ (2#100 < tail_weight QN [1; 1#2; 1#10; 1#100]%Q 1)%Q.
